@@ -5,7 +5,13 @@
 
 package encode
 
-//@ uses numbers
+//@ uses numbers colors protocol
+
+//@ let S0 (proto.abs (old e.err) (old e.mode))
+//@ let S1 (proto.abs e.err e.mode)
+//@ let defaultMeta (and (= (len e.buf) (int 5)) (= (at e.buf (int 0)) #x89) (= (at e.buf (int 1)) #x49) (= (at e.buf (int 2)) #x56) (= (at e.buf (int 3)) #x47) (= (at e.buf (int 4)) #x00))
+//@ let bufRegionOnly (mem.frame2.u8 (old mem.u8) mem.u8 (old nextR) (rgn e.buf) (rgn (old e.buf)))
+//@ let Inv (and (bvule e.mode #x02) (bvult e.cSel #x40) (bvult e.nSel #x40) (=> (and (= e.mode #x02) (not (= e.err nil.Iface))) (= e.err (errval errStylingOpsUsedInDrawingMode))))
 
 //@ contract (*buffer).encodeNatural
 //@   modifies *b mem.u8
@@ -63,3 +69,81 @@ package encode
 //@   ensures [C08.quant.grid C01.quant] (=> (and (not e.highResolutionCoordinates) inrange) (= r64 (fp.roundToIntegral RTZ r64)))
 //@   ensures [C08.quant.nearest C01.quant] (=> (and (not e.highResolutionCoordinates) inrange) (fp.leq (fp.abs (fp.sub RNE r64 c64)) ((_ to_fp 11 53) RNE 0.5)))
 //@   ensures [C08.quant.fixpoint C01.quant] (=> (and (not e.highResolutionCoordinates) inrange (= c64 (fp.roundToIntegral RTZ c64))) (fp.eq result coord))
+
+// ---- Encoder: protocol automaton (C10), selector read-back (C07)
+
+//@ contract (*Encoder).appendDefaultMetadata
+//@   requires Inv
+//@   ensures [inv] Inv
+//@   modifies e.buf e.mode mem.u8
+//@   ensures (= e.mode #x01)
+//@   ensures [C10.default-meta C01.default-meta] defaultMeta
+//@   ensures bufRegionOnly
+
+//@ contract (*Encoder).checkModeStyling
+//@   requires Inv
+//@   ensures [inv] Inv
+//@   modifies e.buf e.mode e.err mem.u8
+//@   ensures [C10.check.mode] (= e.mode (ite (= (old e.mode) #x00) #x01 (old e.mode)))
+//@   ensures [C10.check.err] (ite (= (old e.mode) #x02) (not (= e.err nil.Iface)) (= e.err (old e.err)))
+//@   ensures [C10.check.buf C01.check.buf] (ite (= (old e.mode) #x00) (and defaultMeta bufRegionOnly) (and (= e.buf (old e.buf)) (= mem.u8 (old mem.u8))))
+
+//@ contract (*Encoder).CSel
+//@   requires Inv
+//@   ensures [inv] Inv
+//@   modifies e.buf e.mode mem.u8
+//@   ensures [C07.enc.csel.read] (= result (old e.cSel))
+//@   ensures [C10.step.CSel] (proto.afterNeutral S0 S1)
+//@ contract (*Encoder).NSel
+//@   requires Inv
+//@   ensures [inv] Inv
+//@   modifies e.buf e.mode mem.u8
+//@   ensures [C07.enc.nsel.read] (= result (old e.nSel))
+//@   ensures [C10.step.NSel] (proto.afterNeutral S0 S1)
+//@ contract (*Encoder).LOD
+//@   requires Inv
+//@   ensures [inv] Inv
+//@   modifies e.buf e.mode mem.u8
+//@   ensures [C10.step.LOD] (proto.afterNeutral S0 S1)
+//@   ensures [C10.lod.read] (and (= lod0 (old e.lod0)) (= lod1 (old e.lod1)))
+
+//@ contract (*Encoder).SetCSel
+//@   requires Inv
+//@   ensures [inv] Inv
+//@   modifies e.buf e.mode e.err e.cSel mem.u8
+//@   ensures [C10.step.SetCSel] (proto.afterStyling S0 false S1)
+//@   ensures [C07.enc.setcsel] (= e.cSel (ite (proto.accepts S0 false) (bvand cSel #x3f) (old e.cSel)))
+//@ contract (*Encoder).SetNSel
+//@   requires Inv
+//@   ensures [inv] Inv
+//@   modifies e.buf e.mode e.err e.nSel mem.u8
+//@   ensures [C10.step.SetNSel] (proto.afterStyling S0 false S1)
+//@   ensures [C07.enc.setnsel] (= e.nSel (ite (proto.accepts S0 false) (bvand nSel #x3f) (old e.nSel)))
+
+//@ contract (*Encoder).SetCReg
+//@   requires Inv
+//@   ensures [inv] Inv
+//@   requires [validColor] (spec.validColor c)
+//@   modifies e.buf e.mode e.err e.cSel mem.u8
+//@   ensures [C10.step.SetCReg] (proto.afterStyling S0 (proto.badAdj adj incr) S1)
+//@   ensures [C07.enc.setcreg.sel] (=> (proto.accepts S0 (proto.badAdj adj incr)) (and (= e.cSel (ite incr (bvand (bvadd (old e.cSel) #x01) #x3f) (old e.cSel))) (= e.nSel (old e.nSel))))
+
+//@ contract (*Encoder).SetNReg
+//@   requires Inv
+//@   ensures [inv] Inv
+//@   modifies e.buf e.mode e.err e.nSel e.scratch mem.u8
+//@   ensures [C10.step.SetNReg] (proto.afterStyling S0 (proto.badAdj adj incr) S1)
+//@   ensures [C07.enc.setnreg.sel] (=> (proto.accepts S0 (proto.badAdj adj incr)) (and (= e.nSel (ite incr (bvand (bvadd (old e.nSel) #x01) #x3f) (old e.nSel))) (= e.cSel (old e.cSel))))
+
+//@ contract (*Encoder).SetLOD
+//@   requires Inv
+//@   ensures [inv] Inv
+//@   modifies e.buf e.mode e.err e.lod0 e.lod1 mem.u8
+//@   ensures [C10.step.SetLOD] (proto.afterStyling S0 false S1)
+//@   ensures [C10.setlod.fields] (=> (proto.accepts S0 false) (and (= e.lod0 lod0) (= e.lod1 lod1)))
+
+//@ contract (*Encoder).StartPath
+//@   requires Inv
+//@   ensures [inv] Inv
+//@   modifies e.buf e.mode e.err e.highResolutionCoordinates mem.u8
+//@   ensures [C10.step.StartPath] (proto.afterStart S0 (bvugt adj #x06) S1)
